@@ -179,12 +179,85 @@ def signature(case, ck, log, fault):
 
 
 def plan(tier, seed):
-    return F.std_plan(tier, seed, 1100, 30000)
+    return F.std_plan(tier, seed, 1100, 30000) + [{"twins": True, "seed": seed}]
+
+
+TWIN_SRC = '''
+def make_listener(variant):
+    if variant == 0:
+        class Lst:
+            def on_enter_state(self, source, *, target=None):
+                LOG.append(("v0", getattr(source, "id", None), getattr(target, "id", None), None))
+            def before_go(self, event, *, machine=None):
+                LOG.append(("b0", str(event), machine is not None, None))
+        return Lst()
+    class Lst:
+        def on_enter_state(self, source, **kwargs):
+            LOG.append(("v1", getattr(source, "id", None), getattr(kwargs.get("target"), "id", None), sorted(kwargs)))
+        def before_go(self, *args, **kwargs):
+            LOG.append(("b1", str(kwargs.get("event")), kwargs.get("machine") is not None, list(args)))
+    return Lst()
+
+
+class TwinM(StateMachine):
+    a = State(initial=True)
+    b = State()
+    go = a.to(b) | b.to(a)
+'''
+
+
+def run_twins(desc):
+    """Providers whose classes share __qualname__ and class name (factory-made listeners) but declare
+    different keyword-only / var parameters must each be injected according to their OWN signature."""
+    import itertools
+
+    from statemachine import State, StateMachine
+
+    counters = {"twin_cases": 0, "twin_callbacks": 0}
+    violations, sigs = [], set()
+    for order, attach in itertools.product([(0, 1), (1, 0)], ["both-early", "second-late", "both-late", "model+listener"]):
+        log = []
+        ns = {"State": State, "StateMachine": StateMachine, "LOG": log, "__name__": "vmon_c12twins"}
+        exec(compile(TWIN_SRC, "<c12twins>", "exec"), ns)
+        first, second = ns["make_listener"](order[0]), ns["make_listener"](order[1])
+        try:
+            if attach == "both-early":
+                sm = ns["TwinM"](listeners=[first, second])
+            elif attach == "second-late":
+                sm = ns["TwinM"](listeners=[first])
+                sm.add_listener(second)
+            elif attach == "both-late":
+                sm = ns["TwinM"]()
+                sm.add_listener(first)
+                sm.add_listener(second)
+            else:
+                sm = ns["TwinM"](first, listeners=[second])
+            del log[:]
+            sm.send("go", 7, note="n")
+            outcome = "ok"
+        except Exception as err:  # noqa: BLE001
+            outcome = f"{type(err).__name__}: {err}"[:160]
+        counters["twin_cases"] += 1
+        counters["twin_callbacks"] += len(log)
+        sigs.add(F.h(("twins", order, attach)))
+        builtins = ["event", "event_data", "machine", "model", "note", "state", "target", "transition"]
+        want = sorted([("b0", "go", True, None), ("b1", "go", True, [7]), ("v0", "a", "b", None), ("v1", "a", "b", builtins)], key=str)
+        got = sorted(log, key=str)
+        if outcome != "ok" or got != want:
+            violations.append({"mechanism": "same-qualname-providers-share-a-signature", "rule": "C12.own-signature-injection",
+                               "detail": f"order={order} attach={attach} outcome={outcome} got={got} want={want}"[:900],
+                               "witness": {"source": TWIN_SRC, "order": list(order), "attach": attach}})
+    return {"evaluations": counters["twin_cases"], "signatures": sorted(sigs), "samples": [], "counters": counters,
+            "violations": violations[:2]}
 
 
 def run_shard(desc):
+    if desc.get("twins"):
+        return run_twins(desc)
     return F.explore(desc, make_case, owns, signature, classify=classify)
 
 
 def replay(witness):
+    if "scenario" not in witness.get("witness", {}):
+        return run_twins({})
     return F.replay_case(witness, owns)
